@@ -119,16 +119,30 @@ _core()
 
 
 def _split():
-    """identity tables, concrete key: the order obligation case-split on the position of
-    the addressed element (keys 0..n-1 sit at positions 0..n-1; key n is absent)"""
-    for kind, sizes_q, sizes_t in (("dq", (3,), (4, 5, 6, 7)), ("pq", (), (8,))):
+    """identity tables, concrete key: the obligation case-split on the position of the
+    addressed element (keys 0..n-1 sit at positions 0..n-1; key n is absent). This is what
+    makes the min-max heap affordable at the sizes where its defects live: a max-level
+    node has children from n = 4, both max-level nodes have children from n = 6."""
+    for kind, sizes_q, sizes_t in (("dq", (3, 4, 6), (5, 7)), ("pq", (), (8,))):
         op_ = ordprop(kind)
         for n in sizes_q + sizes_t:
-            t = QUICK if n in sizes_q else THOROUGH
             for op, grow in (("push", 1), ("change_priority", 0), ("remove", 0)):
                 for k in range(0, n + 1):
+                    t = QUICK if n in sizes_q else THOROUGH
+                    if n == 6 and k not in ((1, 3, 5, 6) if op != "remove" else (1, 3, 4)):
+                        t = THOROUGH
                     step(op, kind, n, "inv", "or", {op_: t}, tables=f"idk{k}", grow=grow,
                          cost=(40 if kind == "dq" else 10) * n)
+    # C11 / C12 on the min-max heap at n = 4: every position, all groups
+    for n, t in ((4, QUICK), (6, THOROUGH)):
+        for op in ("push_increase", "push_decrease"):
+            for k in range(0, n + 1):
+                step(op, "dq", n, "inv", "all", {"C11": t}, tables=f"idk{k}", grow=1, cost=45 * n)
+    # struct group (C04) on the min-max heap at n = 4 for the operations with unsafe sifts
+    for op, grow in (("push", 1), ("remove", 0), ("change_priority", 0)):
+        for k in (0, 1, 3, 4):
+            step(op, "dq", 4, "cs", "st", {"C04": QUICK if k in (1, 4) or op == "remove" else THOROUGH},
+                 tables=f"idk{k}", grow=grow, cost=160)
 
 
 _split()
@@ -143,11 +157,12 @@ def _more():
             for op in ("push_increase", "push_decrease"):
                 t = tq(n, qmax_of(kind, op, 4), tmax)
                 step(op, kind, n, "inv", "all", {"C11": t}, grow=1)
+                step(op, kind, n, "cs", "mo", {"C12": tq(n, qmax_of(kind, op, 3, 1, 1), tmax)}, grow=1)
                 step(op, kind, n, "cs", "st", {"C04": tq(n, qmax_of(kind, op, 2, 1, 1), tmax)}, grow=1)
             # pop_if family, peek_mut family
             for e in ends:
                 op = f"pop_{e}_if"
-                t = tq(n, qmax_of(kind, op, 4), tmax)
+                t = tq(n, qmax_of(kind, op, 4, 3, 4), tmax)
                 t2 = tq(n, qmax_of(kind, op, 3, 2, 1), tmax)
                 step(op, kind, n, "inv", "or", {op_: t, "C08": t})
                 step(op, kind, n, "cs", "mo", {"C03": t2, "C08": t})
@@ -320,13 +335,13 @@ def _bulk():
         # ---- extend, rebuild strategy: receiver of 8 (identity tables), hint far above
         for tag, keys in (("ab", [8, 9]), ("xa", [3, 8]), ("xx", [5, 5])):
             for hname in ("far", "max"):
-                t = QUICK if (tag == "xa" and hname == "far" and not dq) else THOROUGH
+                t = THOROUGH
                 inst(f"extend_{kind}_n8_m2_{tag}_{hname}_rebuild",
                      f"bulk::extend::<{ty}, 8, 2, {seq_of(keys)}>(Pre::Inv, Tables::Identity, step::ALL, {HINTS[hname]})",
                      kind, 10, {"C07": t, op_: THOROUGH}, "STEP",
                      meta=dict(op="extend", kind=kind, n=8, m=2, keys=keys, hint=hname, strategy="rebuild", tables="identity"),
                      covers_required=False, cost=900 if dq else 200, mem=10)
-            t = QUICK if (tag == "xa" and not dq) else THOROUGH
+            t = THOROUGH
             inst(f"extend_{kind}_n8_m2_{tag}_twin",
                  f"bulk::extend_twin::<{ty}, 8, 2, {seq_of(keys)}>(Tables::Identity, bulk::H_NONE, bulk::H_FAR)",
                  kind, 10, {"C07": t}, "STEP",
@@ -405,17 +420,17 @@ def _misc():
                 t = QUICK if (n == m and n <= 3) or (n + m == 3) else THOROUGH
                 inst(f"eq_{kind}_n{n}_m{m}", f"misc::eq2::<{ty}, {n}, {m}>()", kind, max(n, m), {"C14": t}, "EQ",
                      meta=dict(op="==", kind=kind, n=n, m=m), covers_required=(n == m and n > 0))
-            t = tq(n, 3 if not dq else 2, 4)
+            t = tq(n, 3 if not dq else 1, 4)
             inst(f"clone_{kind}_n{n}", f"misc::clone_indep::<{ty}, {n}>()", kind, n + 1, {"C14": t}, "EQ",
                  meta=dict(op="clone", kind=kind, n=n), covers_required=False, cost=(n + 1) * (40 if dq else 6))
         for n in (0, 1, 2, 3, 4):
             for opn, opx in RES.items():
                 amounts = [("0", "0", False), ("1", "1", False), ("5", "5", False)] if opn != "shrink_to_fit" else [("x", "0", False)]
                 if opn.startswith("try"):
-                    amounts += [("max", "usize::MAX", True), ("imax", "isize::MAX as usize", True),
-                                ("bytes", "usize::MAX / 16 + 1", True)]
+                    # requests whose size in bytes cannot be represented for any element type
+                    amounts += [("max", "usize::MAX", True), ("imax", "isize::MAX as usize", True)]
                 for tag, amt, huge in amounts:
-                    quick = (n in (0, 2) and tag in ("1", "5", "x", "max", "bytes")) and not (dq and n == 2 and tag in ("1",))
+                    quick = (n in (0, 2) and tag in ("1", "5", "x", "max", "imax")) and not (dq and n == 2 and tag in ("1",))
                     t = QUICK if quick else THOROUGH
                     inst(f"cap_{kind}_{opn}_n{n}_{tag}",
                          f"misc::capacity::<{ty}, {n}>({opx}, {amt}, {B[huge]})", kind, n + 1, {"C17": t}, "STEP",
@@ -478,7 +493,7 @@ def _cost():
                         t = tq(n, 4, 8)
                 else:
                     t = tq(n, 4 if op not in ("change_by", "push_dec") else 2, 8)
-                    if op in ("push", "change", "pop_hi") and n in (7, 8):
+                    if op in ("push", "change", "pop_hi", "pop_hi_if", "remove") and n in (7, 8):
                         t = QUICK            # sizes at which the budget separates log from linear
                     if light_q:
                         t = tq(n, 4, 8)
@@ -517,7 +532,8 @@ def _crash():
                 continue
             heavy = op in ("push", "change", "change_by", "remove", "pop_hi_if", "push_inc", "push_dec")
             for n in range(1, 6):
-                t = tq(n, (2 if heavy else 3) if dq else 3, 4 if dq else 5)
+                # the max-heap sift-up only compares after a shift from depth 2 on (n >= 4)
+                t = tq(n, (2 if heavy else 3) if dq else 4, 4 if dq else 5)
                 if op in ("change_by", "push_dec") and n >= 2:
                     t = THOROUGH if t else None
                 if t is None:
@@ -526,6 +542,16 @@ def _crash():
                 inst(f"crash_{kind}_{op}_n{n}", f"crash::crash::<{ty}, {n}>({opi}, Tables::Any)", kind, n + grow,
                      {"C10": t}, "CRASH", meta=dict(op=op, kind=kind, n=n, pre="cs", callbacks="Ord, Eq, Hash, closures"),
                      covers_required=False, cost=(n + 1) * (50 if dq and heavy else 10))
+
+
+    # the min-max sift-up only compares after a shift when it starts on level 3: position 7,
+    # n = 8 (identity tables, the addressed element at position 7 / the new element)
+    for opi, op, n, k, t in ((1, "change", 8, 7, QUICK), (0, "push", 7, 7, QUICK), (3, "remove", 8, 3, THOROUGH),
+                             (9, "push_dec", 8, 7, THOROUGH), (1, "change", 8, 3, THOROUGH)):
+        grow = 1 if op in ("push", "push_dec") else 0
+        inst(f"crash_dq_{op}_n{n}_idk{k}", f"crash::crash::<DqI, {n}>({opi}, Tables::IdentityKey({k}))", "dq", n + grow,
+             {"C10": t}, "CRASH", meta=dict(op=op, kind="dq", n=n, pre="cs", tables=f"identity, key {k}"),
+             covers_required=False, cost=400, mem=8)
 
 
 _crash()
